@@ -9,7 +9,7 @@ use std::collections::HashMap;
 use std::sync::Arc;
 
 #[derive(Clone)]
-enum AnyRule {
+pub enum AnyRule {
     Flow(Arc<flow::Rule>),
     Br(Arc<br::Rule>),
     Hs(Arc<hs::Rule>),
@@ -71,6 +71,122 @@ fn block_obs(err: &str) -> String {
     } else {
         "err".into()
     }
+}
+
+
+/// builds the rule an operation line describes; returns it with the observation of `is_valid()`
+pub fn build_rule(op: &Op) -> (AnyRule, String) {
+    let fam = op.s("fam");
+    let id = match op.get("idhex") {
+        Some(h) => unhex_str(h),
+        None => op.s("id"),
+    };
+    let res = match op.get("reshex") {
+        Some(h) => unhex_str(h),
+        None => name_of(op.get("res").unwrap_or("-")),
+    };
+    let (rule, obs) = match fam.as_str() {
+                    "flow" => {
+                        let r = flow::Rule {
+                            id: id.clone(),
+                            resource: res,
+                            ref_resource: name_of(op.get("ref").unwrap_or("-")),
+                            calculate_strategy: match op.s("calc").as_str() {
+                                "d" => flow::CalculateStrategy::Direct,
+                                "w" => flow::CalculateStrategy::WarmUp,
+                                "m" => flow::CalculateStrategy::MemoryAdaptive,
+                                _ => flow::CalculateStrategy::Custom(7),
+                            },
+                            control_strategy: match op.s("ctl").as_str() {
+                                "r" => flow::ControlStrategy::Reject,
+                                "t" => flow::ControlStrategy::Throttling,
+                                _ => flow::ControlStrategy::Custom(7),
+                            },
+                            relation_strategy: if op.s("rel") == "a" { flow::RelationStrategy::Associated } else { flow::RelationStrategy::Current },
+                            threshold: op.f("thr"),
+                            warm_up_period_sec: op.u_or("period", 0) as u32,
+                            warm_up_cold_factor: op.u_or("cold", 0) as u32,
+                            max_queueing_time_ms: op.u_or("maxq", 0) as u32,
+                            stat_interval_ms: op.u_or("ivl", 0) as u32,
+                            low_mem_usage_threshold: op.u_or("lmu", 0),
+                            high_mem_usage_threshold: op.u_or("hmu", 0),
+                            mem_low_water_mark: mem_val(op.get("lwm").unwrap_or("0")),
+                            mem_high_water_mark: mem_val(op.get("hwm").unwrap_or("0")),
+                        };
+                        let o = valid_obs(&r);
+                        (AnyRule::Flow(Arc::new(r)), o)
+                    }
+                    "br" => {
+                        let r = br::Rule {
+                            id: id.clone(),
+                            resource: res,
+                            strategy: match op.s("strat").as_str() {
+                                "s" => br::BreakerStrategy::SlowRequestRatio,
+                                "r" => br::BreakerStrategy::ErrorRatio,
+                                "c" => br::BreakerStrategy::ErrorCount,
+                                _ => br::BreakerStrategy::Custom(7),
+                            },
+                            retry_timeout_ms: op.u_or("retry", 0) as u32,
+                            min_request_amount: op.u_or("minreq", 0),
+                            stat_interval_ms: op.u_or("ivl", 0) as u32,
+                            stat_sliding_window_bucket_count: op.u_or("buckets", 0) as u32,
+                            max_allowed_rt_ms: op.u_or("maxrt", 0),
+                            threshold: op.f("thr"),
+                        };
+                        let o = valid_obs(&r);
+                        (AnyRule::Br(Arc::new(r)), o)
+                    }
+                    "hs" => {
+                        let mut specific = HashMap::new();
+                        for kv in op.list("spec") {
+                            let (k, v) = kv.split_once(':').unwrap();
+                            specific.insert(k.to_string(), v.parse::<u64>().unwrap());
+                        }
+                        let r = hs::Rule {
+                            id: id.clone(),
+                            resource: res,
+                            metric_type: if op.s("metric") == "c" { hs::MetricType::Concurrency } else { hs::MetricType::QPS },
+                            control_strategy: match op.s("ctl").as_str() {
+                                "r" => hs::ControlStrategy::Reject,
+                                "t" => hs::ControlStrategy::Throttling,
+                                _ => hs::ControlStrategy::Custom(7),
+                            },
+                            param_index: op.get("idx").unwrap_or("0").parse().unwrap(),
+                            param_key: name_of(op.get("key").unwrap_or("-")),
+                            threshold: op.u_or("thr", 0),
+                            max_queueing_time_ms: op.u_or("maxq", 0),
+                            burst_count: op.u_or("burst", 0),
+                            duration_in_sec: op.u_or("dur", 0),
+                            params_max_capacity: op.u_or("cap", 0) as usize,
+                            specific_items: specific,
+                        };
+                        let o = valid_obs(&r);
+                        (AnyRule::Hs(Arc::new(r)), o)
+                    }
+                    "iso" => {
+                        let r = iso::Rule { id: id.clone(), resource: res, threshold: op.u_or("thr", 0) as u32, ..Default::default() };
+                        let o = valid_obs(&r);
+                        (AnyRule::Iso(Arc::new(r)), o)
+                    }
+                    "sys" => {
+                        let r = sys::Rule {
+                            id: id.clone(),
+                            metric_type: match op.s("metric").as_str() {
+                                "load" => sys::MetricType::Load,
+                                "rt" => sys::MetricType::AvgRT,
+                                "conc" => sys::MetricType::Concurrency,
+                                "qps" => sys::MetricType::InboundQPS,
+                                _ => sys::MetricType::CpuUsage,
+                            },
+                            threshold: op.f("thr"),
+                            strategy: if op.get("strat") == Some("bbr") { sys::AdaptiveStrategy::BBR } else { sys::AdaptiveStrategy::NoAdaptive },
+                        };
+                        let o = valid_obs(&r);
+                        (AnyRule::Sys(Arc::new(r)), o)
+                    }
+                    _ => panic!("harness: family {}", fam),
+                };
+    (rule, obs)
 }
 
 impl Exec {
@@ -183,110 +299,8 @@ impl CaseExec for Exec {
                 "ok".into()
             }
             "rule" => {
-                let fam = op.s("fam");
                 let id = op.s("id");
-                let res = name_of(op.get("res").unwrap_or("-"));
-                let (rule, obs) = match fam.as_str() {
-                    "flow" => {
-                        let r = flow::Rule {
-                            id: id.clone(),
-                            resource: res,
-                            ref_resource: name_of(op.get("ref").unwrap_or("-")),
-                            calculate_strategy: match op.s("calc").as_str() {
-                                "d" => flow::CalculateStrategy::Direct,
-                                "w" => flow::CalculateStrategy::WarmUp,
-                                "m" => flow::CalculateStrategy::MemoryAdaptive,
-                                _ => flow::CalculateStrategy::Custom(7),
-                            },
-                            control_strategy: match op.s("ctl").as_str() {
-                                "r" => flow::ControlStrategy::Reject,
-                                "t" => flow::ControlStrategy::Throttling,
-                                _ => flow::ControlStrategy::Custom(7),
-                            },
-                            relation_strategy: if op.s("rel") == "a" { flow::RelationStrategy::Associated } else { flow::RelationStrategy::Current },
-                            threshold: op.f("thr"),
-                            warm_up_period_sec: op.u_or("period", 0) as u32,
-                            warm_up_cold_factor: op.u_or("cold", 0) as u32,
-                            max_queueing_time_ms: op.u_or("maxq", 0) as u32,
-                            stat_interval_ms: op.u_or("ivl", 0) as u32,
-                            low_mem_usage_threshold: op.u_or("lmu", 0),
-                            high_mem_usage_threshold: op.u_or("hmu", 0),
-                            mem_low_water_mark: mem_val(op.get("lwm").unwrap_or("0")),
-                            mem_high_water_mark: mem_val(op.get("hwm").unwrap_or("0")),
-                        };
-                        let o = valid_obs(&r);
-                        (AnyRule::Flow(Arc::new(r)), o)
-                    }
-                    "br" => {
-                        let r = br::Rule {
-                            id: id.clone(),
-                            resource: res,
-                            strategy: match op.s("strat").as_str() {
-                                "s" => br::BreakerStrategy::SlowRequestRatio,
-                                "r" => br::BreakerStrategy::ErrorRatio,
-                                "c" => br::BreakerStrategy::ErrorCount,
-                                _ => br::BreakerStrategy::Custom(7),
-                            },
-                            retry_timeout_ms: op.u_or("retry", 0) as u32,
-                            min_request_amount: op.u_or("minreq", 0),
-                            stat_interval_ms: op.u_or("ivl", 0) as u32,
-                            stat_sliding_window_bucket_count: op.u_or("buckets", 0) as u32,
-                            max_allowed_rt_ms: op.u_or("maxrt", 0),
-                            threshold: op.f("thr"),
-                        };
-                        let o = valid_obs(&r);
-                        (AnyRule::Br(Arc::new(r)), o)
-                    }
-                    "hs" => {
-                        let mut specific = HashMap::new();
-                        for kv in op.list("spec") {
-                            let (k, v) = kv.split_once(':').unwrap();
-                            specific.insert(k.to_string(), v.parse::<u64>().unwrap());
-                        }
-                        let r = hs::Rule {
-                            id: id.clone(),
-                            resource: res,
-                            metric_type: if op.s("metric") == "c" { hs::MetricType::Concurrency } else { hs::MetricType::QPS },
-                            control_strategy: match op.s("ctl").as_str() {
-                                "r" => hs::ControlStrategy::Reject,
-                                "t" => hs::ControlStrategy::Throttling,
-                                _ => hs::ControlStrategy::Custom(7),
-                            },
-                            param_index: op.get("idx").unwrap_or("0").parse().unwrap(),
-                            param_key: name_of(op.get("key").unwrap_or("-")),
-                            threshold: op.u_or("thr", 0),
-                            max_queueing_time_ms: op.u_or("maxq", 0),
-                            burst_count: op.u_or("burst", 0),
-                            duration_in_sec: op.u_or("dur", 0),
-                            params_max_capacity: op.u_or("cap", 0) as usize,
-                            specific_items: specific,
-                        };
-                        let o = valid_obs(&r);
-                        (AnyRule::Hs(Arc::new(r)), o)
-                    }
-                    "iso" => {
-                        let r = iso::Rule { id: id.clone(), resource: res, threshold: op.u_or("thr", 0) as u32, ..Default::default() };
-                        let o = valid_obs(&r);
-                        (AnyRule::Iso(Arc::new(r)), o)
-                    }
-                    "sys" => {
-                        let r = sys::Rule {
-                            id: id.clone(),
-                            metric_type: match op.s("metric").as_str() {
-                                "load" => sys::MetricType::Load,
-                                "rt" => sys::MetricType::AvgRT,
-                                "conc" => sys::MetricType::Concurrency,
-                                "qps" => sys::MetricType::InboundQPS,
-                                _ => sys::MetricType::CpuUsage,
-                            },
-                            threshold: op.f("thr"),
-                            strategy: if op.get("strat") == Some("bbr") { sys::AdaptiveStrategy::BBR } else { sys::AdaptiveStrategy::NoAdaptive },
-                        };
-                        let o = valid_obs(&r);
-                        (AnyRule::Sys(Arc::new(r)), o)
-                    }
-                    _ => panic!("harness: family {}", fam),
-                };
+                let (rule, obs) = build_rule(op);
                 self.rules.insert(id, rule);
                 obs
             }
